@@ -215,16 +215,23 @@ TIERS = {
     'thorough': {'runs': 120000, 'deadline': 2700.0, 'min_runs': 20000, 'block': 50},
 }
 
-RULE = ("One run = a seeded initial table set (1-3 tables, 0-4 rows, 1-6 columns of short/int/long/float/"
-        "double/char[n]/numeric arrays/char arrays/one enum, 0-4 header pairs) written with "
-        "write_ndarray_to_yanny, the object then kept or replaced by a fresh read in normal or raw mode, "
-        "followed by 3-16 steps drawn with per-run weights from {append rows (dict-of-lists or record "
-        "array, upper- or lower-case key), append pairs, append both, append nothing, write a copy, "
-        "re-read raw/normal, write over an existing file (own file, a file created by the external actor, "
-        "an earlier copy, write_ndarray_to_yanny on an existing file), external delete then append "
-        "(then re-create with write()), clock jump}. After every step: object == reference model, fresh "
-        "read in both modes == model, every file in the directory byte-identical to the model's copy "
-        "(earlier bytes are a prefix after an append), refusals raised, empty appends warned. "
+RULE = ("One run = a seeded initial table set (1-3 tables - up to 5 in the thorough tier -, 0-4 rows, 1-6 "
+        "columns of short/int/long/float/double/char[n]/numeric arrays/char arrays/one enum, occasionally "
+        "wide arrays and long strings, column names unique or shared between tables, 0-5 header pairs) "
+        "either written with write_ndarray_to_yanny (custom comments) and kept or re-read in normal or raw "
+        "mode, or rendered by the simulator as a file from another tool (variable-length char x[] columns, "
+        "tabs, lower-case struct names, CRLF, no final newline) and read; followed by 3-16 steps (8 % of "
+        "the runs: 20-40, thorough: up to 96) drawn with per-run weights from {append rows (dict of lists, "
+        "numpy scalars in lists, record array, permuted/extra fields; upper- or lower-case key; 1-3 or up "
+        "to 130 rows), append pairs (plain, names that look like bookkeeping keys, values the format "
+        "cannot carry verbatim), append both, append nothing, write a copy (names of 6-96 chars, custom "
+        "comments), re-read raw/normal, write over an existing file (own file, file/empty file/directory "
+        "created by the external actor, an earlier copy, write_ndarray_to_yanny on an existing file), "
+        "external delete then append then re-create by write() / external restore / copy, external "
+        "bystanders named <target><suffix>, clock jump (back, same second, year 1 / 9999, year end)}. "
+        "After every step: object == reference model, fresh read in both modes == model, every file in "
+        "the directory byte-identical to the model's copy (earlier bytes are a prefix after an append), "
+        "object.filename == the file the history bound it to, refusals raised, empty appends warned. "
         "evaluations = histories executed. A history is non-trivial when it contains at least one "
         "successful append and at least one of {refused operation, successful copy, re-read followed by a "
         "successful append}; distinct = distinct abstract histories (sequence of (step kind, outcome, "
